@@ -1,6 +1,344 @@
+"""C05: resume block of Sampler.__init__ and the run() write protocol."""
+import ast
+import z3
+
+from pyvc.core import (State, Sym, Arr, Arr2, LArr, SList, PyList, ObjRec, Ref,
+                       Opaque, ClassVal, fresh, fresh_fn, uid, I, B, sort_of,
+                       OutsideSubset, Raised)
+from pyvc import arrays as A
+from pyvc import h5
+from pyvc.npmodel import MaybeNone
+from pyvc.symexec import Executor, LoopSpec, View, Lib, PyCallable
+from pyvc.verify import values_equal, cells_equal, verify_block, short
+from pyvc.frontend import loops_of
+from .common import fn_entry
+from . import sampler_model as M
+from .sampler_model import SQ, S
+
+
+def select_resume_block(fnode):
+    for n in ast.walk(fnode):
+        if isinstance(n, ast.With) and 'h5py.File' in ast.unparse(
+                n.items[0].context_expr):
+            return n.body
+    return []
+
+
+def fresh_sampler_object(ex, st, s0):
+    """the object as the first part of __init__ leaves it (lines 305-327 of
+    sampler.py): empty run state, the constructor's configuration"""
+    old = st.cell(s0)
+    f = {}
+    for k in ('n_dim', 'n_live', 'n_update', 'n_like_new_bound', 'n_batch',
+              'n_points_min', 'n_networks', 'enlarge_per_dim',
+              'split_threshold', 'periodic', 'neural_network_kwargs',
+              'vectorized', 'pass_dict', 'prior', 'likelihood', 'pool_l',
+              'pool_s', 'filepath'):
+        f[k] = old.fields[k]
+    f['rng'] = Opaque('rng')
+    f['n_like'] = 0
+    f['explored'] = False
+    f['bounds'] = st.alloc(PyList(), 'bounds')
+    f['points'] = st.alloc(PyList(), 'points')
+    f['log_l'] = st.alloc(PyList(), 'log_l')
+    f['blobs'] = None
+    f['blobs_dtype'] = MaybeNone(z3.Bool(uid('ctor_blobs_dtype_none')),
+                                 Opaque('dtype'))
+    f['_discard_exploration'] = False
+    for nm, k in (('shell_n', 'int'), ('shell_n_sample', 'int'),
+                  ('shell_n_eff', 'real'), ('shell_log_l_min', 'real'),
+                  ('shell_log_l', 'real'), ('shell_log_v', 'real'),
+                  ('shell_n_sample_exp', 'int'), ('shell_end_exp', 'int'),
+                  ('shell_t', 'int'), ('log_l_t', 'real')):
+        f[nm] = st.alloc(A.const_arr(0, 0 if k == 'int' else 0.0, k), nm)
+    f['points_t'] = st.alloc(A.fresh_arr(st, 'Pt', 'points_t0', n=0), 'pt0')
+    f['blobs_t'] = None
+    return st.alloc(ObjRec('Sampler', f), 'resumed')
+
+
+def as_larr(ex, st, v, k):
+    d = ex.deref(st, v) if isinstance(v, Ref) else v
+    if isinstance(d, LArr):
+        return d
+    if isinstance(d, PyList):
+        items = [ex.deref(st, x) for x in d.items]
+        L = LArr(0, lambda i: z3.IntVal(0), lambda i, j: z3.Const(
+            'nothing_' + k, A.sort_of(k)), k)
+        for a in items:
+            L = A.larr_append(L, a)
+        return L
+    return None
+
+
 def unit_resume(cx, fe, info, ex, G):
-    pass
+    from .C05 import (make_env, run_write, guarded, TB, TB_bound, TB_state,
+                      RNG_COMPONENT, rng_ver)
+    fs = fe.get(SQ + '__init__')
+
+    def body():
+        st = State()
+        s0 = make_env(ex, st)
+        ver0 = rng_ver(st)
+        # a checkpoint is only ever written by run() after the first bound
+        # exists (protocol unit): the file describes at least one shell
+        st.env = dict(self=s0)
+        st.assume(View(ex, st)('self.bounds').n >= 1)
+        for o in run_write(ex, fe, st, s0):
+            if o.status != 'return':
+                continue
+            o.status = 'normal'
+            root = o.ghost['file']
+            s1 = fresh_sampler_object(ex, o, s0)
+            ss0 = M.sstate(o)
+            # the bounds of the resumed sampler start with unknown proposal
+            # state: whatever they have comes from the file
+            o.ghost['sstate'] = z3.Array(uid('sstate_resumed'), M.Bound,
+                                         z3.IntSort())
+            o.env = dict(self=s1, fstream=root,
+                         filepath=Opaque('sink:pathlike'))
+            stmts = select_resume_block(fs.node)
+            if not stmts:
+                raise OutsideSubset('resume block not found')
+            saved = (ex.cur_fn, ex.loop_specs, ex.loop_ord)
+            ex.cur_fn = fs
+            allloops = loops_of(fs.node)
+            ex.loop_ord = {id(n): k for k, n in enumerate(allloops)}
+            inblock = [n for n in allloops if any(
+                n in list(ast.walk(s)) for s in stmts)]
+            specs = resume_loops(ex, s0, s1, ss0, inblock, ex.loop_ord)
+            ex.loop_specs = specs
+            try:
+                outs = ex.exec_block(stmts, [o])
+            finally:
+                ex.cur_fn, ex.loop_specs, ex.loop_ord = saved
+            for r in outs:
+                if r.status not in ('normal', 'return'):
+                    cx.oblige(r, 'resume_does_not_raise/{}'.format(r.exc),
+                              z3.BoolVal(False), kind='no_raise')
+                    continue
+                cx.cover(r, 'exit_reachable/' + '.'.join(r.trace[-5:]))
+                a, b = r.cell(s0), r.cell(s1)
+                for f in ('n_like', 'explored', '_discard_exploration',
+                          'shell_n', 'shell_n_sample', 'shell_n_eff',
+                          'shell_log_l_min', 'shell_log_l', 'shell_log_v',
+                          'shell_n_sample_exp', 'shell_end_exp',
+                          'n_update_iter', 'n_like_iter', 'points_t',
+                          'shell_t', 'log_l_t'):
+                    if f not in b.fields:
+                        cx.oblige(r, 'restored/' + f, z3.BoolVal(False),
+                                  kind='post')
+                        continue
+                    e = values_equal(ex, r, a.fields[f], r, b.fields[f])
+                    cx.oblige(r, 'restored/' + f, z3.BoolVal(True)
+                              if e is None else e, kind='post')
+                for f, k in (('points', 'Pt'), ('log_l', 'real')):
+                    La = ex.deref(r, a.fields[f])
+                    Lb = as_larr(ex, r, b.fields[f], k)
+                    cx.oblige(r, 'restored/' + f, cells_equal(
+                        ex, r, La, r, Lb), kind='post')
+                bn, bl = M.blobs_of(View(ex, _env(r, s0)))
+                bv = b.fields['blobs']
+                if isinstance(bv, MaybeNone):
+                    Lb = as_larr(ex, r, bv.val, 'Blob')
+                    cx.oblige(r, 'restored/blobs', z3.And(
+                        bv.isnone == bn, z3.Implies(z3.Not(bn), cells_equal(
+                            ex, r, bl, r, Lb))), kind='post')
+                elif bv is None:
+                    cx.oblige(r, 'restored/blobs', bn, kind='post')
+                else:
+                    Lb = as_larr(ex, r, bv, 'Blob')
+                    cx.oblige(r, 'restored/blobs', z3.And(
+                        z3.Not(bn), cells_equal(ex, r, bl, r, Lb)),
+                        kind='post')
+                # bounds: same objects, same order, same proposal state, one
+                # shared generator (call_pre obligations)
+                Ba = ex.deref(r, a.fields['bounds'])
+                Bb = ex.deref(r, b.fields['bounds'])
+                if isinstance(Bb, PyList):
+                    Bb = SList(len(Bb.items), lambda i, its=Bb.items: (
+                        its[0].t if len(its) == 1 else z3.If(
+                            i == 0, its[0].t, its[-1].t)), 'Bound')
+                ss1 = M.sstate(r)
+                cx.oblige(r, 'restored/bounds', z3.And(
+                    Bb.n == Ba.n, A.forall_idx(Ba.n, lambda t: z3.And(
+                        Bb.at(t) == Ba.at(t),
+                        z3.Select(ss1, Ba.at(t)) ==
+                        z3.Select(ss0, Ba.at(t))))), kind='post')
+                rr = r.ghost.get('rng_restored')
+                if rr is None:
+                    cx.oblige(r, 'restored/generator_state', z3.BoolVal(False),
+                              kind='post')
+                else:
+                    cx.oblige(r, 'restored/generator_state', z3.And(*[
+                        rr[i].t == RNG_COMPONENT(ver0, z3.IntVal(i))
+                        for i in range(4)]), kind='post')
+    guarded(cx, 'Sampler.__init__[resume]', body)
+    fn_entry(fe, info, SQ + '__init__', status='block: body of `with '
+             'h5py.File(filepath, "r")`')
+
+
+def _env(st, self_):
+    st.env = dict(self=self_)
+    return st
+
+
+def resume_loops(ex, s0, s1, ss0, inblock, loop_ord):
+    """invariants of the two symbolic loops of the resume block"""
+    from .C05 import TB
+    specs = {}
+    sym = [n for n in inblock if not (isinstance(n.iter, ast.List))]
+    # first symbolic loop: shells; second: bounds 1..n-1
+    shell_loop, bound_loop = sym[0], sym[1]
+    k_shell, k_bound = loop_ord[id(shell_loop)], loop_ord[id(bound_loop)]
+
+    def prep_shell(ex_, st):
+        rec = st.cell(s1)
+        for f, k in (('points', 'Pt'), ('log_l', 'real')):
+            v = rec.fields[f]
+            if isinstance(v, Ref) and isinstance(st.cell(v), PyList):
+                st.set_cell(v, as_larr(ex_, st, v, k))
+        # blobs: None until the first shell with a blobs dataset is read
+        rec.fields['blobs'] = MaybeNone(z3.BoolVal(True), st.alloc(
+            LArr(0, lambda i: z3.IntVal(0), lambda i, j: z3.Const(
+                'nothing_Blob', A.sort_of('Blob')), 'Blob'), 'blobs_r'))
+
+    def inv_shell(V):
+        st = V.st
+        kk = V.k(k_shell)
+        a, b = st.cell(s0), st.cell(s1)
+        out = []
+        for f, k in (('points', 'Pt'), ('log_l', 'real')):
+            La = ex.deref(st, a.fields[f])
+            Lb = as_larr(ex, st, b.fields[f], k)
+            i, j = A.qi('i'), A.qi('j')
+            out.append(('shells_read/' + f, z3.And(
+                Lb.n == kk, A.forall_idx(kk, lambda t: Lb.alen(t) ==
+                                         La.alen(t)),
+                z3.ForAll([i, j], z3.Implies(
+                    z3.And(i >= 0, i < kk, j >= 0, j < La.alen(i)),
+                    Lb.at(i, j) == La.at(i, j))))))
+        st0 = st.copy()
+        st0.env = dict(self=s0)
+        bn, bl = M.blobs_of(View(ex, st0))
+        bv = b.fields['blobs']
+        if isinstance(bv, MaybeNone):
+            Lb = as_larr(ex, st, bv.val, 'Blob')
+            none_now = bv.isnone
+        elif bv is None:
+            Lb, none_now = None, z3.BoolVal(True)
+        else:
+            Lb, none_now = as_larr(ex, st, bv, 'Blob'), z3.BoolVal(False)
+        if Lb is not None and bl is not None:
+            i, j = A.qi('i'), A.qi('j')
+            out.append(('shells_read/blobs', z3.And(
+                none_now == z3.Or(bn, kk == 0),
+                z3.Implies(z3.Not(none_now), z3.And(
+                    Lb.n == kk, A.forall_idx(
+                        kk, lambda t: Lb.alen(t) == bl.alen(t)),
+                    z3.ForAll([i, j], z3.Implies(
+                        z3.And(i >= 0, i < kk, j >= 0, j < bl.alen(i)),
+                        Lb.at(i, j) == bl.at(i, j))))))))
+        return out
+    specs[k_shell] = LoopSpec(inv=inv_shell, prepare=prep_shell)
+
+    def prep_bound(ex_, st):
+        rec = st.cell(s1)
+        v = rec.fields['bounds']
+        d = st.cell(v)
+        if isinstance(d, PyList):
+            items = [x.t for x in d.items]
+            st.ghost['n_bounds_before_loop'] = len(items)
+            dummy = z3.Const('no_bound', A.sort_of('Bound'))
+            st.set_cell(v, SList(len(items), lambda i, items=items: (
+                items[0] if items else dummy), 'Bound'))
+
+    def inv_bound(V):
+        st = V.st
+        kk = V.k(k_bound)
+        a, b = st.cell(s0), st.cell(s1)
+        Ba = ex.deref(st, a.fields['bounds'])
+        Bb = ex.deref(st, b.fields['bounds'])
+        ss1 = M.sstate(st)
+        n0 = st.ghost.get('n_bounds_before_loop', 0)
+        return [('bounds_read', z3.And(Bb.n == n0 + kk, A.forall_idx(
+            n0 + kk, lambda t: z3.And(
+                Bb.at(t) == Ba.at(t),
+                z3.Select(ss1, Ba.at(t)) == z3.Select(ss0, Ba.at(t))))))]
+    specs[k_bound] = LoopSpec(inv=inv_bound, prepare=prep_bound,
+                              extra_mods=['$sstate'])
+    return specs
 
 
 def unit_protocol(cx, fe, info):
-    pass
+    """run(): every state-changing step is followed, within the same loop
+    iteration and under `self.filepath is not None`, by the matching write
+    (syntactic call-order obligations on the real AST of run())."""
+    fs = fe.get(SQ + 'run')
+    st = State()
+    cx.prefix = 'Sampler.run/protocol/'
+    loop = [n for n in ast.walk(fs.node) if isinstance(n, ast.While)][0]
+
+    def calls(stmts):
+        out = []
+        for s in stmts:
+            for n in ast.walk(s):
+                if isinstance(n, ast.Call):
+                    out.append(ast.unparse(n.func) + '(' + ', '.join(
+                        ast.unparse(a) for a in n.args[:1] if ast.unparse(
+                            a) != 'self.filepath') + ')')
+        return out
+
+    def followed(stmts, step, write):
+        """in the statement list, after the statement containing `step` there
+        is an `if self.filepath is not None:` block containing `write`"""
+        seen = False
+        for s in stmts:
+            src = ast.unparse(s)
+            if not seen and step in src:
+                seen = True
+                if isinstance(s, ast.If) and 'self.filepath is not None' not \
+                        in ast.unparse(s.test):
+                    # step inside a branch: the write must be in the same
+                    # branch after it
+                    return followed(s.body, step, write)
+                continue
+            if seen and isinstance(s, ast.If) and ast.unparse(s.test) == \
+                    'self.filepath is not None' and write in src:
+                return True
+        return False
+    expl = [n for n in loop.body if isinstance(n, ast.If) and ast.unparse(
+        n.test) == 'not self.explored'][0]
+    checks = [
+        ('bound_insertion_is_followed_by_a_full_write',
+         followed(expl.body, 'self.add_bound(', 'self.write(self.filepath')),
+        ('exploration_batch_is_followed_by_an_update',
+         followed(expl.body, 'self.add_samples(-1',
+                  'self.write_shell_update(self.filepath, -1)')),
+        ('end_of_exploration_is_followed_by_a_full_write',
+         followed(expl.body, 'self.explored = True',
+                  'self.write(self.filepath')),
+    ]
+    n_branch = 0
+    for br in expl.orelse + [x for n in expl.orelse if isinstance(n, ast.If)
+                             for x in n.orelse]:
+        if isinstance(br, ast.If) and 'self.add_samples(shell' in \
+                ast.unparse(br.body):
+            n_branch += 1
+            checks.append(('sampling_batch_{}_is_followed_by_an_update_of_'
+                           'the_same_shell'.format(n_branch),
+                           followed(br.body, 'self.add_samples(shell',
+                                    'self.write_shell_update(self.filepath, '
+                                    'shell)')))
+    checks.append(('both_sampling_branches_found', n_branch == 2))
+    # no local of run() carries state across iterations except `success`
+    assigned = set()
+    for n in ast.walk(loop):
+        if isinstance(n, ast.Assign):
+            for t in n.targets:
+                if isinstance(t, ast.Name):
+                    assigned.add(t.id)
+    checks.append(('no_run_state_in_locals', assigned <= {'success', 'shell'}))
+    for nm, ok in checks:
+        cx.oblige(st, nm, z3.BoolVal(bool(ok)), kind='effect')
+    cx.prefix = ''
+    fn_entry(fe, info, SQ + 'run', status='protocol (call order) obligations')
